@@ -119,3 +119,8 @@ REGISTRY.update({
     "C35": _mc("explicit-state enumeration of inputs x pathological-input decorators x methods x option menu x return flags, plus the complete menu of single invalid parameters; return-shape / exception-class oracle",
                "Every bounded ARG x 3-5 mutation patterns x 12 decorators (time scales 2^-20..1e12, historical leaf, internal sample, free leaf, isolated sample with and without its own mutation, migrations, unphased diploids, no sites) x 8-10 method/option vectors x return_fit/return_likelihood: each call returns the documented shape or raises ValueError/NotImplementedError with a message; 18 kinds of invalid parameter x methods x return flags are always rejected cleanly."),
 })
+
+REGISTRY.update({
+    "C29": _mc("explicit-state enumeration of inputs (two numberings) x deleted-locus patterns x mutation placements (one above every node in every tree) x missing-data patterns x node-metadata schemas; per-position tree comparison, genotype, contiguity and idempotence oracles",
+               "Every bounded ARG with disjoint nodes (absent in a middle locus) and every ARG with each locus / loci {0,2} deleted x 2 mutation placements x 3 schemas, plus every (sample, locus) isolation with a mutation on the isolated sample: split_disjoint_nodes must return, keep each local tree (copies mapped back), keep ids of leftmost pieces, copy node attributes + split flag + unsplit_node_id, keep sites and genotypes, leave no gapped ancestry and be idempotent."),
+})
